@@ -153,11 +153,22 @@ pub struct Mock<const LB: bool> {
     pub counter: u32,
     /// 0 = handlers succeed, k = handlers fail with status k-1 of the protocol's list
     pub script: u8,
+    /// the complete response value the last successful handler returned
+    pub last: Option<ctap2::Response>,
+}
+
+/// A fully populated response of the given kind whose content is determined by the call counter:
+/// the dispatcher must hand back exactly this value, every member included.
+fn rich(kind: u8, c: u32) -> ctap2::Response {
+    let mut rng = crate::prng::Rng::new(c as u64, kind as u64, 33);
+    let mut spec = crate::c17::random_spec(&mut rng, kind as u64 + 10 * (1 + (c as u64 % 5)));
+    spec.fill = c as u64;
+    crate::c17::build(&spec)
 }
 
 impl<const LB: bool> Mock<LB> {
     pub fn new() -> Self {
-        Mock { log: Vec::new(), counter: 1000, script: 0 }
+        Mock { log: Vec::new(), counter: 1000, script: 0, last: None }
     }
     fn enter(&mut self, id: &'static str, params: String) -> u32 {
         self.counter = self.counter.wrapping_add(1);
@@ -200,36 +211,55 @@ macro_rules! common_ctap2 {
     () => {
         fn get_info(&mut self) -> ctap2::get_info::Response {
             let c = self.enter("get_info", String::new());
-            let mut r = ctap2::get_info::ResponseBuilder { versions: Default::default(), aaguid: Bytes::new() }.build();
-            r.max_msg_size = Some(c as usize);
-            r
+            let full = rich(0, c);
+            self.last = Some(full.clone());
+            match full {
+                ctap2::Response::GetInfo(r) => r,
+                _ => unreachable!(),
+            }
         }
         fn make_credential(&mut self, request: &ctap2::make_credential::Request) -> ctap2::Result<ctap2::make_credential::Response> {
             let c = self.enter("make_credential", format!("{:?}", request));
             if let Some(e) = self.fail2() {
                 return e;
             }
-            Ok(ctap2::make_credential::ResponseBuilder { fmt: ctap2::AttestationStatementFormat::None, auth_data: Bytes::from_slice(&c.to_be_bytes()).unwrap() }.build())
+            let full = rich(1, c);
+            self.last = Some(full.clone());
+            match full {
+                ctap2::Response::MakeCredential(r) => Ok(r),
+                _ => unreachable!(),
+            }
         }
         fn get_assertion(&mut self, request: &ctap2::get_assertion::Request) -> ctap2::Result<ctap2::get_assertion::Response> {
             let c = self.enter("get_assertion", format!("{:?}", request));
             if let Some(e) = self.fail2() {
                 return e;
             }
-            Ok(ga_response(c))
+            let full = rich(2, c);
+            self.last = Some(full.clone());
+            match full {
+                ctap2::Response::GetAssertion(r) => Ok(r),
+                _ => unreachable!(),
+            }
         }
         fn get_next_assertion(&mut self) -> ctap2::Result<ctap2::get_assertion::Response> {
             let c = self.enter("get_next_assertion", String::new());
             if let Some(e) = self.fail2() {
                 return e;
             }
-            Ok(ga_response(c))
+            let full = rich(3, c);
+            self.last = Some(full.clone());
+            match full {
+                ctap2::Response::GetNextAssertion(r) => Ok(r),
+                _ => unreachable!(),
+            }
         }
         fn reset(&mut self) -> ctap2::Result<()> {
             self.enter("reset", String::new());
             if let Some(e) = self.fail2() {
                 return e;
             }
+            self.last = Some(ctap2::Response::Reset);
             Ok(())
         }
         fn client_pin(&mut self, request: &ctap2::client_pin::Request) -> ctap2::Result<ctap2::client_pin::Response> {
@@ -237,24 +267,31 @@ macro_rules! common_ctap2 {
             if let Some(e) = self.fail2() {
                 return e;
             }
-            let mut r = ctap2::client_pin::Response::default();
-            r.pin_token = Some(Bytes::from_slice(&c.to_be_bytes()).unwrap());
-            Ok(r)
+            let full = rich(4, c);
+            self.last = Some(full.clone());
+            match full {
+                ctap2::Response::ClientPin(r) => Ok(r),
+                _ => unreachable!(),
+            }
         }
         fn credential_management(&mut self, request: &ctap2::credential_management::Request) -> ctap2::Result<ctap2::credential_management::Response> {
             let c = self.enter("credential_management", format!("{:?}", request));
             if let Some(e) = self.fail2() {
                 return e;
             }
-            let mut r = ctap2::credential_management::Response::default();
-            r.existing_resident_credentials_count = Some(c);
-            Ok(r)
+            let full = rich(5, c);
+            self.last = Some(full.clone());
+            match full {
+                ctap2::Response::CredentialManagement(r) => Ok(r),
+                _ => unreachable!(),
+            }
         }
         fn selection(&mut self) -> ctap2::Result<()> {
             self.enter("selection", String::new());
             if let Some(e) = self.fail2() {
                 return e;
             }
+            self.last = Some(ctap2::Response::Selection);
             Ok(())
         }
         fn vendor(&mut self, op: VendorOperation) -> ctap2::Result<()> {
@@ -262,6 +299,7 @@ macro_rules! common_ctap2 {
             if let Some(e) = self.fail2() {
                 return e;
             }
+            self.last = Some(ctap2::Response::Vendor);
             Ok(())
         }
     };
@@ -278,7 +316,12 @@ impl ctap2::Authenticator for Mock<true> {
         if let Some(e) = self.fail2() {
             return e;
         }
-        Ok(lb_response(c))
+        let full = rich(6, c);
+        self.last = Some(full.clone());
+        match full {
+            ctap2::Response::LargeBlobs(r) => Ok(r),
+            _ => unreachable!(),
+        }
     }
 }
 
@@ -447,6 +490,7 @@ where
         }
     }
     m.script = script;
+    m.last = None;
     let before = m.log.len();
     let counter_before = m.counter;
     let res = guard(|| {
@@ -489,14 +533,20 @@ where
     } else {
         match &res {
             Ok(r) => {
-                let (variant, val) = unpack2(r);
+                let (variant, _) = unpack2(r);
                 if variant != exp.handler {
                     return f("wrong_response_variant", format!("result was wrapped as the {} response", variant));
                 }
-                let carries = !matches!(exp.handler, "reset" | "selection" | "vendor") && !(exp.handler == "large_blobs" && ctap_types::sizes::LARGE_BLOB_MAX_FRAGMENT_LENGTH < 4);
-                if carries && val != Some(unique) {
-                    return f("result_changed", format!("handler returned the value {} but the caller got {:?}", unique, val));
+                // the handler's complete result, every member included, must come back
+                match m.last.take() {
+                    Some(want) => {
+                        if *r != want {
+                            return f("result_changed", format!("the caller got {} but the handler returned {}", trunc(&format!("{:?}", r)), trunc(&format!("{:?}", want))));
+                        }
+                    }
+                    None => return f("result_changed", "the caller got a response although the handler recorded none".to_string()),
                 }
+                let _ = unique;
             }
             Err(e) => return f("spurious_error", format!("handler succeeded but the caller got Err({:?})", e)),
         }
